@@ -373,8 +373,13 @@ def run(chk):
     # the spacing restriction: in the (inlined) frame set-up an indexed frame with non-uniform spacing raises in the
     # mode, and nothing else (such as a spacing value already present) lets that path off
     fsetup = ix.get_method("FrameItem", "setup_from_data")
-    # (pure helpers - static methods, module functions - stay opaque calls)
-    fs = chk.terms.inline(fsetup, 4, stop=lambda g: g.kind == "staticmethod" or g.cls is None)
+    # (pure helpers - static methods / module functions that only compute, never refuse - stay opaque calls)
+    def pure_helper(g):
+        if not (g.kind == "staticmethod" or g.cls is None):
+            return False
+        su_ = chk.terms.summary(g)
+        return not su_.raises and not any(e.kind == "raise" for e in su_.effects)
+    fs = chk.terms.inline(fsetup, 4, stop=pure_helper)
     flag = A(("global", "global_config"), FLAG)
     hits = []
     for pc, exc in raise_conditions(fs):
